@@ -177,32 +177,9 @@ def check(ctx):
             ctx.ob("R3", f"key::{k}::cancelled-by-reset", ok2,
                    f"connection-scoped tasks {k!r} are not cancelled on any path reachable from GeckoAsyncSpaMan.async_reset", cs[0][0].loc)
     # cancel sites whose key nobody starts are harmless; cancel with the wrong literal shows as missing above
-    # gather: cancels every task then awaits them
-    gg = cfg_of(gather)
-    canc = [n for n, c in gg.nodes_calling("cancel")]
-    awaited = [n for n in gg.stmt_nodes() if n.suspends and any(call_name(c) == "gather" for c in n.calls())]
-    ok = bool(canc) and bool(awaited)
-    if ok:
-        loops = [gg.loop_of(c) for c in canc]
-        ok = any(l is not None and l.kind == "for" and ast.unparse(l.ast.iter) == "self._tasks" for l in loops)
-        ok = ok and all(gg.dom(canc[0], a) or gg.reachable(canc[0], a) for a in awaited)
-        star = any(isinstance(a, ast.Starred) and ast.unparse(a.value) == "self._tasks" for n in awaited for c in n.calls() for a in c.args)
-        ok = ok and star
-    ctx.ob("R3", "AsyncTasks.gather::cancel-then-await-all", ok,
-           "AsyncTasks.gather does not cancel every task in self._tasks and then await all of them", gather.loc)
-    ckt = repo.method("AsyncTasks", "cancel_key_tasks")
-    cg2 = cfg_of(ckt)
-    canc2 = cg2.nodes_calling("cancel")
-    ok = bool(canc2)
-    for n, c in canc2:
-        facts = cg2.iter_guard_atoms(n)
-        ok = ok and any(p and "startswith" in t and "key_" in t for t, p in facts)
-    ctx.ob("R3", "AsyncTasks.cancel_key_tasks::matches-prefix", ok,
-           "cancel_key_tasks does not cancel exactly the tasks whose name starts with the key prefix", ckt.loc)
-    at = repo.method("AsyncTasks", "add_task")
-    nm_ok = any(isinstance(n, ast.Call) and call_name(n) == "create_task" and
-                any(kw.arg == "name" and "key_" in ast.unparse(kw.value) for kw in n.keywords) for n in ast.walk(at.node))
-    ctx.ob("R3", "AsyncTasks.add_task::name-carries-key", nm_ok, "add_task does not name the task `<key>:<name>` (cancel_key_tasks matches on that prefix)", at.loc)
+    # registry behaviour by interpretation (vlib/taskmodel.py): domain isolation, nothing forgotten, gather
+    from ..taskmodel import check_registry
+    check_registry(ctx, repo, "R3", only=("isolation", "forgotten", "gather"))
 
     # ---- R4 cancellation ----------------------------------------------------
     n_handlers = 0
@@ -311,28 +288,7 @@ def check(ctx):
     reset_survives_self_cancel(ctx, repo, "R7")
 
     # ---- R6 bounded growth --------------------------------------------------
-    tidy = repo.method("AsyncTasks", "_tidy")
-    ok = False
-    gt = cfg_of(tidy)
-    for n in ast.walk(tidy.node):
-        if isinstance(n, ast.Assign) and ast.unparse(n.targets[0]) == "self._tasks" and isinstance(n.value, ast.ListComp):
-            comp = n.value
-            gen = comp.generators[0]
-            if ast.unparse(gen.iter) == "self._tasks" and gen.ifs and ast.unparse(gen.ifs[0]).replace(" ", "") in (f"not{ast.unparse(gen.target)}.done()",):
-                ok = True
-        elif isinstance(n, ast.Assign) and ast.unparse(n.targets[0]) == "self._tasks" and isinstance(n.value, ast.Name):
-            # explicit-loop idiom: acc = []; for t in self._tasks: if not t.done(): acc.append(t); self._tasks = acc
-            acc = n.value.id
-            for an, ac in gt.nodes_calling("append"):
-                if receiver(ac) != acc:
-                    continue
-                lp = gt.loop_of(an)
-                if lp is not None and lp.kind == "for" and ast.unparse(lp.ast.iter) == "self._tasks" and ast.unparse(ac.args[0]) == ast.unparse(lp.ast.target):
-                    facts = gt.guard_atoms(an, entry=lp, cut_back=True)
-                    if (f"{ast.unparse(lp.ast.target)}.done()", False) in facts and len([x for x in gt.guards(an, entry=lp, cut_back=True) if x[0] is not lp]) == 1:
-                        inits = [m for m in gt.stmt_nodes() if isinstance(m.ast, ast.Assign) and ast.unparse(m.ast.targets[0]) == acc and isinstance(m.ast.value, ast.List) and not m.ast.value.elts]
-                        ok = bool(inits) and all(gt.dom(m, lp) for m in inits)
-    ctx.ob("R6", "AsyncTasks._tidy::drops-done-tasks", ok, "_tidy does not rebind self._tasks to the not-done subset (task list grows with every reconnect)", tidy.loc)
+    check_registry(ctx, repo, "R6", only=("tidy",))
     tidy_started = any(fi.qual == "AsyncTasks.__aenter__" and isinstance(n.args[0], ast.Call) and call_name(n.args[0]) == "_tidy" for fi, n, k in adds if n.args)
     ctx.ob("R6", "AsyncTasks.__aenter__::starts-tidy", tidy_started, "the tidy task is not started on context entry")
     for attr in ("_facade", "_spa", "_spa_descriptors"):
